@@ -28,6 +28,7 @@ pub struct ConnectionSnapshot {
     pub sequence: u64,
     pub expire_timestamp: u64,
     pub replay_most_recent_sequence: u64,
+    pub replay_window_digest: u64,
 }
 
 #[derive(Debug, Clone, PartialEq, Eq)]
@@ -66,4 +67,5 @@ pub struct ClientSnapshot {
     pub max_clients: u32,
     pub client_index: u32,
     pub replay_most_recent_sequence: u64,
+    pub replay_window_digest: u64,
 }
